@@ -268,7 +268,7 @@ theorem build_follows_source (u : UC) (stmts : List Stmt) :
     and returned; `input` binds the result of parsing the WHOLE text to a name and only then extends `self.statements`
     with it (the order `input_atomic` rests on); every association is defined and then formalized -/
 theorem loader_shape_tie :
-    Gen.BuildShape.buildMetamodel = ["m = xtuml.MetaModel(id_generator)", "self.populate(m)", "return m"] ∧
+    Gen.BuildShape.buildMetamodel = ["v0 = xtuml.MetaModel(id_generator)", "self.populate(v0)", "return v0"] ∧
     Gen.BuildShape.inputSteps = [("parse", "v0"), ("extend", "v0")] ∧
     Gen.BuildShape.associationCalls = ["define_association", "formalize"] := ⟨rfl, rfl, rfl⟩
 
